@@ -11,15 +11,18 @@ PROP = {
     # strict-atomic 1: the "atomic alike" clause counts (known finding F08a);
     # strict 1: the divergence classes count (known findings F08b, F08c, F08d, F08e); anything else is a VIOLATION.
     # (F11c - stale rsync old/ directory - is repaired in /repo by e1f99c61 and must not occur.)
-    'extra': {'quick': {'strict-atomic': 1, 'strict': 1}, 'thorough': {'strict-atomic': 1, 'strict': 1, 'plan': 'all'}},
+    # strict-new 1: the candidate classes found after the known-findings list was fixed count as well (numbers from 20:
+    # publisher-half-created, revocation-at-parent-skipped, deleted-ca-objects-left-in-repository, deleted-ca-leftover-stores).
+    'extra': {'quick': {'strict-atomic': 1, 'strict': 1, 'strict-new': 0}, 'thorough': {'strict-atomic': 1, 'strict': 1, 'strict-new': 0, 'plan': 'all'}},
     'harness_timeout': 6000,
     'replay_header': C08_HEADER,
     'replay_footer': "Eval vm_compute in (failing agrees base_index cases).\nEval vm_compute in (failing c08_ok base_index cases).",
-    'stats_keys': ['target_ca', 'strict', 'strict_atomic', 'mutation_traces', 'atomic_alike_broken_cases', 'candidate_findings', 'scenario_wall_s'],
+    'stats_keys': ['target_ca', 'strict', 'strict_atomic', 'strict_new', 'mutation_traces', 'atomic_alike_broken_cases', 'candidate_findings', 'scenario_wall_s'],
     'assumptions': [
         'one key-value mutation is atomic (disk back-end: temp file + rename(2)); a crash falls BETWEEN two probe points (before every key-value mutation and before every file-system mutation of the publication server); torn writes inside one write(2) and fsync ordering are outside',
         'a crash is process::abort() in a worker subprocess followed by a fresh runtime on the surviving directory plus the daemon start-up sequence for the queue (reschedule_tasks_at_startup, QueueStartTasks); a failed write is one injected error at exactly one mutation on the running instance (a fatal scheduler error is followed by a restart, as process::exit(1) would be)',
         '"background tasks have run" = due tasks are pumped, and the periodic work (parent syncs, re-publication, repository syncs, RRDP/rsync write) is run once directly - the scheduler does the same within its refresh intervals; prompt convergence (before that periodic work) is reported separately in the evidence',
+        'failed-write mode runs on a daemon that has been up for a while: before the faulted operation one successful command (a ROA comment change, no tasks, no object changes) is sent to the CAs involved, so the cache entry is one command behind the log as after any successful command; right after the failing write the state readers see (get_ca) is compared with the replay of the audit log by a fresh AggregateStore; before the final observation a DIFFERENT command is acknowledged and the instance is restarted: no version gap, nothing acknowledged lost, the restarted instance shows what the running one showed',
         'the resubmitted request is the same API call; a request that had been applied already may be rejected as a duplicate (stored with its error) - only API views and repository content are compared',
         'canonicalisation: key identifiers, own resource-class names, serial numbers, manifest numbers, revocation counts and timestamps are not compared; sets are sorted',
         'the listener-idempotence hypothesis of C08_converges_after_resubmit holds for product updates (ROA / ASPA / router keys / child certificates) and is REFUTED for key life-cycle events (C08_keyroll_activation_not_resubmittable)',
